@@ -135,6 +135,27 @@ pub fn run(a: &Args) {
             }
         }
     }
+    // hand-made shapes: empty and one-element sets of every element shape, sets of sets, empty collections
+    {
+        let coll = AV::Coll(vec![("b".into(), AV::Int(1)), ("a".into(), AV::Str("Keyword", "k".into()))]);
+        let shapes = vec![
+            AV::Set(vec![]),
+            AV::Set(vec![AV::Int(1)]),
+            AV::Set(vec![coll.clone()]),
+            AV::Set(vec![AV::Set(vec![AV::Int(1), AV::Int(2)])]),
+            AV::Set(vec![AV::Set(vec![coll.clone()])]),
+            AV::Set(vec![coll.clone(), coll.clone()]),
+            AV::Set(vec![AV::Coll(vec![])]),
+            AV::Coll(vec![]),
+            AV::Coll(vec![("only".into(), AV::Set(vec![coll.clone()]))]),
+            AV::Coll(vec![("x".into(), AV::Coll(vec![("y".into(), AV::Set(vec![AV::NoValue]))]))]),
+            AV::NoValue,
+            AV::Other(0x10, vec![]),
+        ];
+        for v in shapes {
+            emit_iter(&mut sink, &v.to_ipp(), &mut n, 0);
+        }
+    }
     // wide collections with names whose byte order differs from other orders
     let tricky = ["b", "a", "B", "aa", "a-", "é", "z", "Z", "10", "9", "", "~"];
     for k in 2..tricky.len() {
